@@ -1,5 +1,6 @@
 import Percival.Proofs.Http
 import Percival.Proofs.HttpSamples
+import Percival.Proofs.HttpRes
 /-!
 # C08 — the HTTP client is memory-safe and terminates cleanly on any server byte stream
 
@@ -12,8 +13,15 @@ leaves its buffer, or a `size_t` subtraction wraps).  `Inv`/`InvBuf`/`RespOK` ar
   for a chunk, whose last two bytes are its EOL).
 * `InvBuf st h buf` adds `hepos ≤ |buf|` for `readHeader`.
 
-Leak-freedom is not expressible in this functional model; it is observed on the real code by the
-allocator/fd accounting of `harness/h_http.c` on every run (partial).
+Resources and cancellation (second half of this file): `Model/HttpRes.lean` threads an explicit resource
+state through the same handlers — the multiset of live heap blocks tagged by kind, the pointer fields of
+`struct http_cookie`, the outstanding connect / read-wait / write registrations, the open descriptors — and
+follows `http_request2`, `callback_connected`, `gotheaders`, `addbody`, `toobig`, `docallback`, `fail`,
+`http_request_cancel`, `netbuf_read_{init,wait,wait_cancel,free}`, `netbuf_write_{init,write,free}`/`writbuf`/`poke`
+and `network_connect{,_cancel}` statement by statement.  A `free` without a live block, a failing `assert` of
+netbuf/network_connect and any use of the cookie after `free(H)` are faults (`RSt.err`).  The environment
+(`Turn`) decides, while each wait is pending, how many buffer writes complete, whether the write in progress
+fails, whether the caller cancels, and how the wait completes.
 -/
 namespace Percival.C08
 open Percival.Model.Http Percival.Proofs.Http Percival.Gen.Http
@@ -97,5 +105,231 @@ example :
 theorem gen_constants :
     MAXHDR = 65536 ∧ MAXCHLEN = 256 ∧ WAITCAP = 1048576 ∧ STATUS_MIN = 100 ∧ STATUS_MAX = 599 ∧
     INTERIM_MIN = 100 ∧ INTERIM_MAX = 199 ∧ NOBODY_A = 204 ∧ NOBODY_B = 304 := by decide
+
+/-! ## resources, registrations, cancellation -/
+
+open Percival.Model.HttpRes Percival.Proofs.HttpRes
+
+/-- **(a) Nothing leaks, nothing is freed twice.**  For every server byte string, every environment
+(`oracle`: every segmentation, EOF/reset anywhere, any number of completed request-buffer writes before each
+arrival, a failing write at any point, **a call of `http_request_cancel` while any wait is pending**), every
+body limit, HEAD or not, a request with or without body, and whatever happens to the connection attempt
+(`pre`: cancelled before it completes / refused / connected): the request ends; no fault occurred (no `free`
+of a block that is not live, no failed `assert` in netbuf/network_connect, no use of the cookie after it was
+freed); **no block is live**, no descriptor is open; and exactly this went to the caller: nothing if the
+request was cancelled, else the body buffer — which `http.h` makes the callback's to free — **iff** the
+callback got a response with a non-empty body (`body == NULL` exactly when there is no body, when it is too
+big, or when the response is `NULL`). -/
+theorem leaks_nothing {σ : Type} (ovf : Bool → Nat → Int) (oracle : σ → Nat → Nat → σ × Turn) (o : σ)
+    (ishead : Bool) (max : Nat) (data : Bytes) (hasBody : Bool) (pre : Pre) :
+    ∃ cbs cancelled r tr, runAllR ovf oracle o ishead max data hasBody pre = .ended cbs cancelled r tr ∧
+      r.err = none ∧ r.live = [] ∧ r.fds = 0 ∧
+      (cancelled = true → r.handedBody = 0) ∧
+      (∀ resp, cbs = [resp] → r.handedBody =
+        match resp with
+        | none => 0
+        | some x =>
+          match x.body with
+          | none => 0
+          | some b => if b.length = 0 then 0 else 1) := by
+  have h := runAllR_ok ovf oracle o ishead max data hasBody pre
+  generalize runAllR ovf oracle o ishead max data hasBody pre = out at h
+  cases out with
+  | abort w tr => exact absurd h (by simp [OutcomeOK])
+  | ended cbs cancelled r tr =>
+    obtain ⟨h1, h2, _, _, _, h6, _, h9⟩ := h
+    refine ⟨cbs, cancelled, r, tr, rfl, h1, ?_, h6, ?_, ?_⟩
+    · apply List.eq_nil_iff_forall_not_mem.mpr
+      intro k hk
+      have := List.count_pos_iff.mpr hk
+      rw [h2 k] at this; omega
+    · intro hc; subst hc; simp only [if_true] at h9; exact h9.2
+    · intro resp hcb
+      cases cancelled with
+      | true => simp only [if_true] at h9; rw [h9.1] at hcb; cases hcb
+      | false =>
+        simp only [Bool.false_eq_true, if_false] at h9
+        obtain ⟨resp', e, _, hz⟩ := h9
+        rw [hcb] at e; cases e
+        rw [hz]
+        cases resp with
+        | none => rfl
+        | some x =>
+          cases hb : x.body with
+          | none => simp [bodyNonEmpty, hb]
+          | some b => simp only [bodyNonEmpty, hb]; cases b <;> simp
+
+/-- the sample response delivered bytewise with a request body; the caller cancels while the 53rd wait is
+    pending — inside the chunk, when header copy, header array and a partly filled body buffer are live (5
+    blocks of `http.c`'s own, 10 in all, a read and a write outstanding): afterwards nothing is live -/
+example :
+    (match runAllR (fun _ _ => 0) (exOracle 52 1000) 0 false 2 Percival.Proofs.HttpSamples.sampleStream true .connected with
+     | .ended cbs c r tr => cbs.isEmpty && c && r.live.isEmpty && r.err.isNone && r.handedBody == 0 &&
+         tr.getLast? == some { k := 2, own := 5, total := 10, regs := 2 }
+     | _ => false) = true := by decide +kernel
+
+/-- the same run to its end: one block — the body — is the caller's, nothing else is left -/
+example :
+    (match runAllR (fun _ _ => 0) (exOracle 1000 1000) 0 false 2 Percival.Proofs.HttpSamples.sampleStream true .connected with
+     | .ended [some x] false r _ => r.live.isEmpty && r.err.isNone && r.handedBody == 1 && x.body == some [104, 105]
+     | _ => false) = true := by decide +kernel
+
+/-- a HEAD request: the response has an empty body (`bodylen == 0`), no buffer goes to the caller -/
+example :
+    (match runAllR (fun _ _ => 0) (exOracle 1000 1000) 0 true 2 Percival.Proofs.HttpSamples.sampleStream false .connected with
+     | .ended [some x] false r _ => r.live.isEmpty && r.handedBody == 0 && x.body == some []
+     | _ => false) = true := by decide +kernel
+
+/-- limit 1: the partly filled body buffer is freed by `toobig`, nothing goes to the caller -/
+example :
+    (match runAllR (fun _ _ => 0) (exOracle 1000 1000) 0 false 1 Percival.Proofs.HttpSamples.sampleStream false .connected with
+     | .ended [some x] false r _ => r.live.isEmpty && r.err.isNone && r.handedBody == 0 && x.body == none
+     | _ => false) = true := by decide +kernel
+
+/-- **(b) No callback after cancel.**  If the request ended by the caller's `http_request_cancel` (at any
+point: before the connection is made or while any wait is pending, with any amount of data buffered), the
+caller's callback was never invoked and **no callback of the library is left that the event loop could still
+deliver** (no connect, read-wait or write registration outstanding) — so none can arrive later either. -/
+theorem no_callback_after_cancel {σ : Type} (ovf : Bool → Nat → Int) (oracle : σ → Nat → Nat → σ × Turn) (o : σ)
+    (ishead : Bool) (max : Nat) (data : Bytes) (hasBody : Bool) (pre : Pre)
+    (cbs : List (Option Resp)) (r : RSt) (tr : List Snap)
+    (hrun : runAllR ovf oracle o ishead max data hasBody pre = .ended cbs true r tr) :
+    cbs = [] ∧ r.ncb = 0 ∧ r.pending = [] := by
+  have h := runAllR_ok ovf oracle o ishead max data hasBody pre
+  rw [hrun] at h
+  obtain ⟨_, _, h3, h4, h5, _, h7, h9⟩ := h
+  simp only [if_true] at h9
+  refine ⟨h9.1, by rw [h7, h9.1]; rfl, ?_⟩
+  simp [RSt.pending, h3, h4, h5]
+
+/-- the hypothesis is satisfiable at every kind of point: before the connection is made … -/
+example : ∃ r, runAllR (fun _ _ => 0) (exOracle 1000 1000) 0 false 2 Percival.Proofs.HttpSamples.sampleStream true .cancel =
+    .ended [] true r [] := ⟨_, rfl⟩
+
+/-- … while the very first wait is pending (both request buffers still unwritten), and in the middle of the
+    header block -/
+example :
+    (match runAllR (fun _ _ => 0) (exOracle 0 1000) 0 false 2 Percival.Proofs.HttpSamples.sampleStream true .connected,
+           runAllR (fun _ _ => 0) (exOracle 20 1000) 0 false 2 Percival.Proofs.HttpSamples.sampleStream true .connected with
+     | .ended [] true r1 _, .ended [] true r2 _ => r1.pending.isEmpty && r2.pending.isEmpty
+     | _, _ => false) = true := by decide +kernel
+
+/-- **(c) Exactly one callback, or none if cancelled.**  Every run ends either by cancellation with no
+invocation of the caller's callback, or — not cancelled — with exactly one (`r.ncb` counts the invocations
+made by `fail`/`docallback`, `cbs` lists their arguments). -/
+theorem exactly_one_callback_or_cancelled {σ : Type} (ovf : Bool → Nat → Int) (oracle : σ → Nat → Nat → σ × Turn) (o : σ)
+    (ishead : Bool) (max : Nat) (data : Bytes) (hasBody : Bool) (pre : Pre) :
+    ∃ cbs cancelled r tr, runAllR ovf oracle o ishead max data hasBody pre = .ended cbs cancelled r tr ∧
+      ((cancelled = true ∧ cbs = [] ∧ r.ncb = 0) ∨ (cancelled = false ∧ r.ncb = 1 ∧ ∃ resp, cbs = [resp])) := by
+  have h := runAllR_ok ovf oracle o ishead max data hasBody pre
+  generalize runAllR ovf oracle o ishead max data hasBody pre = out at h
+  cases out with
+  | abort w tr => exact absurd h (by simp [OutcomeOK])
+  | ended cbs cancelled r tr =>
+    obtain ⟨_, _, _, _, _, _, h7, h9⟩ := h
+    refine ⟨cbs, cancelled, r, tr, rfl, ?_⟩
+    cases cancelled with
+    | true =>
+      simp only [if_true] at h9
+      exact Or.inl ⟨rfl, h9.1, by rw [h7, h9.1]; rfl⟩
+    | false =>
+      simp only [Bool.false_eq_true, if_false] at h9
+      obtain ⟨resp, e, _, _⟩ := h9
+      exact Or.inr ⟨rfl, by rw [h7, e]; rfl, resp, e⟩
+
+/-- both alternatives occur; so do the `NULL` callbacks: refused connection, and a request-buffer write
+    failing while the 4th wait is pending (`fail` called from the writer) -/
+example :
+    (match runAllR (fun _ _ => 0) (exOracle 1000 1000) 0 false 2 Percival.Proofs.HttpSamples.sampleStream true .refused,
+           runAllR (fun _ _ => 0) (exOracle 1000 3) 0 false 2 Percival.Proofs.HttpSamples.sampleStream true .connected with
+     | .ended [none] false r1 _, .ended [none] false r2 tr => r1.ncb == 1 && r2.ncb == 1 && r2.live.isEmpty && tr.length == 4
+     | _, _ => false) = true := by decide +kernel
+
+/-- **(d) No registration survives the request.**  However the request ends (callback or cancel), no
+`network_connect`, no `netbuf_read_wait` (network read or immediate) and no `network_write` registration is
+outstanding afterwards, and the socket is closed. -/
+theorem no_registration_survives {σ : Type} (ovf : Bool → Nat → Int) (oracle : σ → Nat → Nat → σ × Turn) (o : σ)
+    (ishead : Bool) (max : Nat) (data : Bytes) (hasBody : Bool) (pre : Pre) :
+    ∃ cbs cancelled r tr, runAllR ovf oracle o ishead max data hasBody pre = .ended cbs cancelled r tr ∧
+      r.pending = [] ∧ r.regs = 0 ∧ r.fds = 0 := by
+  have h := runAllR_ok ovf oracle o ishead max data hasBody pre
+  generalize runAllR ovf oracle o ishead max data hasBody pre = out at h
+  cases out with
+  | abort w tr => exact absurd h (by simp [OutcomeOK])
+  | ended cbs cancelled r tr =>
+    obtain ⟨_, _, h3, h4, h5, h6, _, _⟩ := h
+    exact ⟨cbs, cancelled, r, tr, rfl, by simp [RSt.pending, h3, h4, h5], by simp [RSt.regs, h3, h4, h5], h6⟩
+
+/-- registrations do exist during the run (a read wait and a write at every snapshot of this run), and
+    cancelling a request **after** it completed is outside the contract of `http.h` (the cookie is gone: the
+    model reports the use after free) -/
+example :
+    (match runAllR (fun _ _ => 0) (exOracle 1000 1000) 0 false 2 Percival.Proofs.HttpSamples.sampleStream true .connected with
+     | .ended _ false r tr => tr.all (fun s => s.regs == 2) && r.regs == 0 && (cancelR r).err.isSome
+     | _ => false) = true := by decide +kernel
+
+/-- **(e) What the callback gets**, in the resource model: a response handed to the caller has a status in
+100..599 and a body no longer than the limit, an oversized body coming without any buffer (`body = none`:
+`bodylen = (size_t)(-1)`, `body = NULL`, and by (a) no block handed over). -/
+theorem response_in_range {σ : Type} (ovf : Bool → Nat → Int) (oracle : σ → Nat → Nat → σ × Turn) (o : σ)
+    (ishead : Bool) (max : Nat) (data : Bytes) (hasBody : Bool) (pre : Pre)
+    (x : Resp) (rest : List (Option Resp)) (cancelled : Bool) (r : RSt) (tr : List Snap)
+    (hrun : runAllR ovf oracle o ishead max data hasBody pre = .ended (some x :: rest) cancelled r tr) :
+    100 ≤ x.status ∧ x.status ≤ 599 ∧
+    (match x.body with
+     | some b => b.length ≤ max
+     | none => r.handedBody = 0) := by
+  have h := runAllR_ok ovf oracle o ishead max data hasBody pre
+  rw [hrun] at h
+  obtain ⟨_, _, _, _, _, _, _, h9⟩ := h
+  cases cancelled with
+  | true => simp only [if_true] at h9; exact absurd h9.1 (by simp)
+  | false =>
+    simp only [Bool.false_eq_true, if_false] at h9
+    obtain ⟨resp, e, hr, hz⟩ := h9
+    cases e
+    simp only [RespOK] at hr
+    refine ⟨hr.1, hr.2.1, ?_⟩
+    cases hb : x.body with
+    | some b => have := hr.2.2; rw [hb] at this; exact this
+    | none => rw [hz]; simp [bodyNonEmpty, hb]
+
+example :
+    (match runAllR (fun _ _ => 0) (exOracle 1000 1000) 0 false 2 Percival.Proofs.HttpSamples.sampleStream true .connected with
+     | .ended (some x :: _) _ _ _ => decide (x.status = 200)
+     | _ => false) = true := by decide +kernel
+
+/-- … and it is the same decision procedure: when the caller never cancels and no write fails, a connected
+request of the resource model ends with the same callback argument and the same sequence of wait lengths as
+`Model.Http.runAll` (the model of `run_terminates_with_one_callback` and of C09) on the same reader/network
+behaviour. -/
+theorem resource_run_refines_run {σ : Type} (ovf : Bool → Nat → Int) (oracle : σ → Nat → Nat → σ × Turn) (o : σ)
+    (ishead : Bool) (max : Nat) (data : Bytes) (hasBody : Bool)
+    (hq : ∀ o c k, (oracle o c k).2.wfail = false ∧ (oracle o c k).2.cancel = false) :
+    eraseOut (runAllR ovf oracle o ishead max data hasBody .connected) =
+      some (runAll ovf (arrivals oracle) o ishead max data) :=
+  runAllR_erase ovf oracle o ishead max data hasBody hq
+
+/-- an environment which never cancels and in which no write fails: any segmentation, any write progress -/
+example : ∀ (o c k : Nat), ((fun (n _ _ : Nat) => (n + 1, ({ wrote := n, arrival := .more n } : Turn))) o c k).2.wfail = false ∧
+    ((fun (n _ _ : Nat) => (n + 1, ({ wrote := n, arrival := .more n } : Turn))) o c k).2.cancel = false :=
+  fun _ _ _ => ⟨rfl, rfl⟩
+
+/-- **`http_request_cancel` at any consistent point.**  Whenever the heap is what the pointer fields of the
+cookie say (`Cons`: one block per non-`NULL` pointer, the reader's two and the writer's `1 + 2·(queued + in
+progress)` blocks, registrations only where `H` knows them), `http_request_cancel` frees every block of the
+request, cancels every registration, closes the socket, faults nowhere, and invokes nothing.  (`cc`: the
+`network_connect` cookie while `callback_connected` is running — it is `network_connect`'s to free.) -/
+theorem cancel_frees_and_cancels_everything (r : RSt) (cc : Nat) (h : Cons r cc) :
+    (cancelR r).err = none ∧ (∀ k, (cancelR r).live.count k = if k = .connect ∧ r.pConnect = false then cc else 0) ∧
+    (cancelR r).pending = [] ∧ (cancelR r).fds = 0 ∧ (cancelR r).ncb = r.ncb := by
+  obtain ⟨e1, e2, e3, e4, e5, e6, e7, _⟩ := cancel_spec r cc h
+  refine ⟨e1, fun k => ?_, by simp [RSt.pending, e3, e4, e5], e6, e7⟩
+  rw [e2]
+  cases k <;> cases r.pConnect <;> simp
+
+/-- a state holding everything a request can hold at once is consistent (as is the state right after
+    `http_request()`, `Proofs.HttpRes.cons_httpRequest`) -/
+example : Cons exFull 0 := exFull_cons
 
 end Percival.C08
